@@ -62,13 +62,13 @@ def gen_save_load(rng) -> dict:
         for _ in range(rng.randint(1, 6)):
             ev["write_faults"][str(rng.randint(1, 60))] = "short"
         for _ in range(rng.randint(0, 6)):
-            ev["read_faults"][str(rng.randint(1, 80))] = "short"
+            ev["read_faults"][str(rng.choice([1, 1, 2, 3, rng.randint(1, 80)]))] = "short"
     elif r < 0.75:
         ev["write_faults"][str(rng.randint(1, 25))] = rng.choice(["enospc", "eio"])
-    elif r < 0.85:
+    elif r < 0.82:
         ev["read_faults"][str(rng.randint(1, 30))] = "eio"
     else:
-        ev["crash"] = {"at_write": rng.choice([None, rng.randint(1, 30)]), "seed": rng.getrandbits(24)}
+        ev["crash"] = {"at_write": rng.choice([None, rng.randint(1, 6), rng.randint(1, 30)]), "seed": rng.getrandbits(24)}
     return ev
 
 
